@@ -196,6 +196,9 @@ def w_reflect(case):
                         x["value"] = 2 ** 31
             out["roundtrip_but_signed_min"] = (d == rec2)
     except Exception as e:
+        from .impl import CaseTimeout
+        if isinstance(e, CaseTimeout):
+            raise  # the per-case watchdog, not an answer of the codec: reported as "did not answer" by the caller (exit 2 path)
         out["serde_raised"] = {"exc": type(e).__name__, "msg": str(e)[:150]}
     if case.get("via_cli") and "bytes" in out:
         # the `fcp encode <reflection.fcp> <schema> <output>` command must write exactly those bytes (for the record of
@@ -367,6 +370,7 @@ def run(prop, tier, replay=None):
         cases.append({"text": text, "via_cli": rng.random() < 0.25, "declared": listing_declared(d)})
     cases.append({"text": 'version: "3"\nstruct A {\n    x @ -1: u8,\n}\n'})  # recorded finding: negative field id
     cases.append({"text": 'version: "3"\nstruct A {\n    x @ 0: u8,\n}\nservice S @ -1 {\n    method m(A) @ -2 returns A,\n}\n'})  # ... service / method id
+    cases.append({"text": 'version: "3"\nstruct A {\n    x @ 0: [u8, 4294967296],\n    y @ 4294967296: [[u8, 4294967297], 2],\n}\n'})  # ... array size, id >= 2^32
     cases.append({"text": 'version: "3"\nenum E {\n    A = -2147483648,\n}\nstruct S {\n    e @ 0: E,\n}\n'})  # recorded: signed-min
     # recorded finding: an enumerator outside the i32 of `Enumeration.value`
     cases.append({"text": 'version: "3"\nenum E {\n    A = 0,\n    B = 4294967301,\n}\nstruct S {\n    e @ 0: E,\n}\n'})
@@ -430,14 +434,17 @@ def run(prop, tier, replay=None):
             continue
         if not m["wf"]:
             # the record does not fit the reflection schema (e.g. a negative field id in `field_id: u32`)
-            neg = any(f["id"] < 0 for s in o["rschema"]["structs"] for f in s["fields"]) or \
-                any(sv["id"] < 0 or any(mt["id"] < 0 for mt in sv["methods"]) for sv in o["rschema"]["services"])
+            def sizes(t):
+                return ([t["n"]] if isinstance(t, dict) and t.get("k") == "arr" else []) + (sizes(t["t"]) if isinstance(t, dict) and "t" in t else [])
+            u32 = lambda x: 0 <= x < 2 ** 32
+            neg = any(not u32(f["id"]) or not all(u32(n) for n in sizes(f["ty"])) for s in o["rschema"]["structs"] for f in s["fields"]) or \
+                any(not u32(sv["id"]) or any(not u32(mt["id"]) for mt in sv["methods"]) for sv in o["rschema"]["services"])
             big = any(not -2 ** 31 <= x["value"] < 2 ** 31 for e in o["rschema"]["enums"] for x in e["items"])
             rep.hist("outcome", "out-of-reflection-range")
             if neg and neg_listed and o.get("roundtrip") is False:
-                rep.known_finding("a negative id of a field, a service or a method (accepted by parser and verifier) does not survive "
-                                  "the reflection round trip: field_id, Service.id and Method.id are u32 in reflection.fcp (witnesses: "
-                                  "struct A { x @ -1: u8 }; service S @ -1 { method m(A) @ -2 returns A })")
+                rep.known_finding("an id of a field, service or method, or the element count of a fixed array, outside 0..2^32-1 (accepted "
+                                  "by parser and verifier) does not survive the reflection round trip: these members are u32 in reflection.fcp "
+                                  "(witnesses: struct A { x @ -1: u8 }; service S @ -1 { method m(A) @ -2 returns A }; [u8, 4294967296]; x @ 4294967296)")
             elif big and big_listed and o.get("roundtrip") is False:
                 rep.known_finding("an enumerator outside -2^31..2^31-1 (accepted by parser and verifier, encoded by the codecs) "
                                   "does not survive the reflection round trip: Enumeration.value is i32 in reflection.fcp "
